@@ -3,9 +3,818 @@
 package c11
 
 import (
+	"bufio"
+	"context"
+	"fmt"
+	"net"
+	"strconv"
+	"strings"
+	"sync"
+	"sync/atomic"
 	"testing"
+	"time"
 
+	"github.com/foxcpp/maddy/framework/log"
+	"github.com/foxcpp/maddy/framework/module"
+	"github.com/foxcpp/maddy/internal/endpoint/smtp"
+	"github.com/foxcpp/maddy/internal/limits"
+	"github.com/foxcpp/maddy/internal/zzverif/mx"
+	"verifkit/prng"
 	"verifkit/rep"
 )
 
-func runEndpointCases(t *testing.T, r *rep.Reporter, env instrEnv) {}
+// Layer (ii): an SMTP/LMTP endpoint built from configuration text with a
+// limits block (inline `limits { ... }`, or `limits &name` referencing a
+// limits.Group the harness built from the same text and can therefore probe
+// directly), a scripted check (rejects MAIL) and a scripted target (rejects
+// RCPT, fails DATA / commit, holds deliveries). 2-12 clients from several
+// 127.0.0.x source addresses run transactions that end at every stage:
+// delivered, MAIL rejected, RCPT rejected, body failed, commit failed, RSET,
+// QUIT, connection dropped, connection dropped inside DATA.
+//
+// Inside intervals (subsets of the permit-holding interval of a transaction):
+//   - the CheckSender call of the scripted check (runs inside pipeline.Start,
+//     i.e. after TakeMsg and before any release),
+//   - from the entry of the target's Start to the first of: Start failing,
+//     Body failing, entry of Commit, entry of Abort.
+//
+// The count of transactions inside per scope key must never exceed N.
+// After all sessions have ended (Endpoint.ConnectionCount() == 0) the
+// quiescent probes of layer (i) run on the Group (reference mode) or through
+// SMTP (inline mode).
+
+var epEndings = []string{"ok", "ok", "mail-rej", "rcpt-rej", "body-fail", "commit-fail", "rset", "rset-early", "quit", "drop", "drop-in-data"}
+var epStages = []string{"none", "sender", "start", "rcpt", "body", "commit"}
+
+type epTx struct {
+	Domain   int    `json:"domain"`   // sender domain class, -1 = null sender
+	Spelling int    `json:"spelling"` // 0 lower, 1 UPPER, 2 Mixed
+	End      string `json:"end"`
+	Stage    string `json:"dwell_stage"`
+	DwellUS  int    `json:"dwell_us"`
+}
+
+type epClient struct {
+	IP  int    `json:"ip"` // 127.0.0.(2+IP)
+	Txs []epTx `json:"txs"`
+}
+
+type epScenario struct {
+	Proto   string     `json:"proto"` // smtp | lmtp
+	Defer   bool       `json:"defer_sender_reject"`
+	Inline  bool       `json:"inline_limits_block"`
+	Timeout bool       `json:"limit_timeout_scenario"`
+	Scope   string     `json:"timeout_scope,omitempty"`
+	Cfg     limitsCfg  `json:"cfg"`
+	Text    string     `json:"limits_text"`
+	Clients []epClient `json:"clients"`
+}
+
+func epIP(i int) net.IP { return net.IPv4(127, 0, 0, byte(2+i)) }
+
+func epDomain(class int) string { return fmt.Sprintf("d%d.example", class) }
+
+func epSender(ci, ti int, tx epTx) string {
+	if tx.Domain < 0 {
+		return ""
+	}
+	d := epDomain(tx.Domain)
+	switch tx.Spelling {
+	case 1:
+		d = strings.ToUpper(d)
+	case 2:
+		d = strings.ToUpper(d[:1]) + d[1:len(d)-3] + "PLE"
+	}
+	return fmt.Sprintf("c%dt%d@%s", ci, ti, d)
+}
+
+func genEndpointScenario(p *prng.R, timeout bool) epScenario {
+	sc := epScenario{Proto: "smtp", Defer: p.Bool(), Inline: p.Chance(1, 5), Timeout: timeout}
+	if p.Chance(1, 5) {
+		sc.Proto = "lmtp"
+	}
+	scopes := []string{scAll, scIP, scSrc}
+	if timeout {
+		// one binding scope with N in 1..2; the others, if present, are wide
+		sc.Scope = prng.Pick(p, scopes)
+		n := p.Range(1, 2)
+		sc.Cfg.Dirs = []directive{{Scope: sc.Scope, Kind: "concurrency", N: n}}
+		for _, o := range scopes {
+			if o != sc.Scope && p.Chance(1, 3) {
+				sc.Cfg.Dirs = append(sc.Cfg.Dirs, directive{Scope: o, Kind: "concurrency", N: n + p.Range(3, 5)})
+			}
+		}
+		perm := p.Perm(len(sc.Cfg.Dirs))
+		ds := make([]directive, len(perm))
+		for i, j := range perm {
+			ds[i] = sc.Cfg.Dirs[j]
+		}
+		sc.Cfg.Dirs = ds
+		// holders 0..n-1, surplus n..n+s-1: all on the same ip and sender domain
+		total := n + p.Range(1, 2)
+		for ci := 0; ci < total; ci++ {
+			end := "ok"
+			if ci < n {
+				end = prng.Pick(p, []string{"ok", "rset", "drop", "quit", "rcpt-rej", "body-fail"})
+			}
+			sc.Clients = append(sc.Clients, epClient{IP: 0, Txs: []epTx{{Domain: 0, Spelling: p.Intn(3), End: end, Stage: "start"}}})
+		}
+	} else {
+		sc.Cfg = genCfg(p, cfgOpts{scopes: scopes, maxN: prng.Pick(p, []int{1, 2, 3}), allowRate: true, rateBurst: 512})
+		nc := p.Range(2, 12)
+		nip := prng.Pick(p, []int{1, 2, 3})
+		ndom := prng.Pick(p, []int{1, 2, 3})
+		for ci := 0; ci < nc; ci++ {
+			cl := epClient{IP: p.Intn(nip)}
+			for ti, nt := 0, p.Range(1, 3); ti < nt; ti++ {
+				tx := epTx{Domain: p.Intn(ndom), Spelling: p.Intn(3), End: prng.Pick(p, epEndings), Stage: prng.Pick(p, epStages), DwellUS: p.Range(100, 4000)}
+				if p.Chance(1, 10) {
+					tx.Domain = -1
+				}
+				cl.Txs = append(cl.Txs, tx)
+			}
+			sc.Clients = append(sc.Clients, cl)
+		}
+	}
+	sc.Text = sc.Cfg.Text()
+	return sc
+}
+
+// ---- endpoint under test -----------------------------------------------------
+
+type epHarness struct {
+	sc    epScenario
+	endp  *smtp.Endpoint
+	addr  string
+	group *limits.Group // nil in inline mode
+	tgt   *mx.ScriptTarget
+	chk   *mx.ScriptCheck
+	lg    *mx.Log
+	mon   *insideMon
+
+	mu      sync.Mutex
+	from    map[string]string // msg id -> MAIL FROM seen by the target/check
+	in      map[string]bool   // msg id -> currently counted inside (target interval)
+	panics  []string
+	hold    chan struct{} // timeout scenario: holders wait here inside Start
+	holding atomic.Int32
+	entered atomic.Int64
+}
+
+var epSeq atomic.Int64
+
+// Checks inside a `check { }` block are created inline by module name; the
+// factory "check.c11_script <name>" hands out the scripted check of a case.
+var scriptChecks struct {
+	sync.Mutex
+	once sync.Once
+	m    map[string]*mx.ScriptCheck
+}
+
+func registerCheck(chk *mx.ScriptCheck) {
+	scriptChecks.once.Do(func() {
+		scriptChecks.m = map[string]*mx.ScriptCheck{}
+		module.Register("check.c11_script", func(_, _ string, _, inlineArgs []string) (module.Module, error) {
+			scriptChecks.Lock()
+			defer scriptChecks.Unlock()
+			if len(inlineArgs) != 1 || scriptChecks.m[inlineArgs[0]] == nil {
+				return nil, fmt.Errorf("c11_script: unknown scripted check %v", inlineArgs)
+			}
+			return scriptChecks.m[inlineArgs[0]], nil
+		})
+	})
+	scriptChecks.Lock()
+	scriptChecks.m[chk.InstName] = chk
+	scriptChecks.Unlock()
+}
+
+func freePort() (int, error) {
+	l, err := net.Listen("tcp", "127.0.0.1:0")
+	if err != nil {
+		return 0, err
+	}
+	defer l.Close()
+	return l.Addr().(*net.TCPAddr).Port, nil
+}
+
+// txOf parses "c<client>t<tx>@domain".
+func (h *epHarness) txOf(from string) (ci, ti int, tx *epTx) {
+	at := strings.IndexByte(from, '@')
+	if at < 0 {
+		// null sender: a scenario has at most ... any number; identify by being the only candidate is impossible,
+		// so null-sender transactions carry no script (delivered, no dwell)
+		return -1, -1, nil
+	}
+	lp := from[:at]
+	if !strings.HasPrefix(lp, "c") {
+		return -1, -1, nil
+	}
+	k := strings.IndexByte(lp, 't')
+	if k < 0 {
+		return -1, -1, nil
+	}
+	ci, err1 := strconv.Atoi(lp[1:k])
+	ti, err2 := strconv.Atoi(lp[k+1:])
+	if err1 != nil || err2 != nil || ci >= len(h.sc.Clients) || ti >= len(h.sc.Clients[ci].Txs) {
+		return -1, -1, nil
+	}
+	return ci, ti, &h.sc.Clients[ci].Txs[ti]
+}
+
+func (h *epHarness) keysOf(ci int, tx *epTx) []scopeKey {
+	dom := ""
+	if tx.Domain >= 0 {
+		dom = epDomain(tx.Domain)
+	}
+	return []scopeKey{{scAll, ""}, {scIP, epIP(h.sc.Clients[ci].IP).String()}, {scSrc, dom}}
+}
+
+func (h *epHarness) leaveTarget(msgID string) {
+	h.mu.Lock()
+	was := h.in[msgID]
+	delete(h.in, msgID)
+	from := h.from[msgID]
+	h.mu.Unlock()
+	if !was {
+		return
+	}
+	if ci, _, tx := h.txOf(from); tx != nil {
+		h.mon.Leave(h.keysOf(ci, tx)...)
+	}
+}
+
+func newEpHarness(sc epScenario) (*epHarness, error) {
+	id := epSeq.Add(1)
+	h := &epHarness{sc: sc, lg: mx.NewLog(), mon: newInsideMon(sc.Cfg), from: map[string]string{}, in: map[string]bool{}, hold: make(chan struct{})}
+	h.tgt = mx.NewTarget(fmt.Sprintf("c11_tgt_%d", id), h.lg)
+	h.tgt.Partial = true
+	h.chk = mx.NewCheck(fmt.Sprintf("c11_chk_%d", id), h.lg)
+
+	// scripted check: sender stage = first inside interval, MAIL rejection
+	h.chk.Hook = func(p mx.CheckPoint) {
+		if p.Stage != "sender" {
+			return
+		}
+		ci, _, tx := h.txOf(p.Arg)
+		if tx == nil {
+			return
+		}
+		h.entered.Add(1)
+		keys := h.keysOf(ci, tx)
+		h.mon.Enter(keys...)
+		if tx.Stage == "sender" {
+			time.Sleep(time.Duration(tx.DwellUS) * time.Microsecond)
+		}
+		h.mon.Leave(keys...)
+	}
+	h.chk.Result = func(p mx.CheckPoint) module.CheckResult {
+		if p.Stage == "sender" {
+			if _, _, tx := h.txOf(p.Arg); tx != nil && tx.End == "mail-rej" {
+				return module.CheckResult{Reject: true, Reason: mx.MakeErr(mx.Perm, 0, "sender refused")}
+			}
+		}
+		return module.CheckResult{}
+	}
+
+	// scripted target: second inside interval, failures at RCPT / body / commit, dwell, hold
+	h.tgt.Hook = func(p mx.Point) {
+		var from string
+		if p.Stage == mx.StStart {
+			for _, e := range h.lg.Filter(func(e mx.Event) bool { return e.Kind == "start.call" && e.MsgID == p.MsgID }) {
+				from = e.From
+			}
+			h.mu.Lock()
+			h.from[p.MsgID] = from
+			h.mu.Unlock()
+		} else {
+			h.mu.Lock()
+			from = h.from[p.MsgID]
+			h.mu.Unlock()
+		}
+		ci, _, tx := h.txOf(from)
+		if tx == nil {
+			return
+		}
+		switch p.Stage {
+		case mx.StStart:
+			h.entered.Add(1)
+			h.mu.Lock()
+			h.in[p.MsgID] = true
+			h.mu.Unlock()
+			h.mon.Enter(h.keysOf(ci, tx)...)
+			if h.sc.Timeout && ci < h.holders() {
+				h.holding.Add(1)
+				<-h.hold
+			}
+		case mx.StCommit, mx.StAbort:
+			if tx.Stage == "commit" {
+				time.Sleep(time.Duration(tx.DwellUS) * time.Microsecond)
+			}
+			h.leaveTarget(p.MsgID)
+			return
+		}
+		if tx.Stage == p.Stage {
+			time.Sleep(time.Duration(tx.DwellUS) * time.Microsecond)
+		}
+	}
+	h.tgt.Script = func(p mx.Point) error {
+		h.mu.Lock()
+		from := h.from[p.MsgID]
+		h.mu.Unlock()
+		_, _, tx := h.txOf(from)
+		if tx == nil {
+			return nil
+		}
+		switch {
+		case p.Stage == mx.StRcpt && tx.End == "rcpt-rej":
+			return mx.MakeErr(mx.Perm, 0, "rcpt refused")
+		case p.Stage == mx.StBody && tx.End == "body-fail":
+			// the delivery may never be aborted by the session (a C03 matter); the
+			// interval ends here, still inside the Body call
+			h.leaveTarget(p.MsgID)
+			return mx.MakeErr(mx.Temp, 0, "body failed")
+		case p.Stage == mx.StCommit && tx.End == "commit-fail":
+			return mx.MakeErr(mx.Temp, 1, "commit failed")
+		}
+		return nil
+	}
+	mx.RegisterInstance(h.tgt)
+	registerCheck(h.chk)
+
+	limitsDirective := ""
+	if sc.Inline {
+		limitsDirective = "limits {\n" + sc.Text + "}\n"
+	} else {
+		g, err := buildGroup(sc.Text)
+		if err != nil {
+			return nil, err
+		}
+		h.group = g
+		mx.RegisterInstance(g)
+		limitsDirective = "limits &" + g.InstanceName() + "\n"
+	}
+	deferTxt := "no"
+	if sc.Defer {
+		deferTxt = "yes"
+	}
+	text := "hostname mx.example.com\ntls off\nbuffer ram\ndefer_sender_reject " + deferTxt + "\n" + limitsDirective +
+		"check {\nc11_script " + h.chk.InstName + "\n}\ndeliver_to &" + h.tgt.InstName + "\n"
+
+	var lastErr error
+	for try := 0; try < 20; try++ {
+		port, err := freePort()
+		if err != nil {
+			return nil, err
+		}
+		h.addr = fmt.Sprintf("127.0.0.1:%d", port)
+		m, err := smtp.New(sc.Proto, []string{"tcp://" + h.addr})
+		if err != nil {
+			return nil, err
+		}
+		endp := m.(*smtp.Endpoint)
+		endp.Log = log.Logger{Name: sc.Proto, Out: log.FuncOutput(func(_ time.Time, _ bool, msg string) {
+			if strings.Contains(msg, "panic") {
+				h.mu.Lock()
+				h.panics = append(h.panics, msg)
+				h.mu.Unlock()
+			}
+		}, func() error { return nil })}
+		if err := mx.InitModule(endp, text, nil); err != nil {
+			lastErr = err
+			if strings.Contains(err.Error(), "address already in use") {
+				continue
+			}
+			return nil, fmt.Errorf("endpoint init: %w\n%s", err, text)
+		}
+		h.endp = endp
+		return h, nil
+	}
+	return nil, lastErr
+}
+
+func (h *epHarness) holders() int {
+	return h.sc.Cfg.N(h.sc.Scope)
+}
+
+func (h *epHarness) reportPanics(c *rep.Case) {
+	h.mu.Lock()
+	defer h.mu.Unlock()
+	seen := map[string]bool{}
+	for _, msg := range h.panics {
+		site := rep.PanicSite(msg)
+		if seen[site] {
+			continue
+		}
+		seen[site] = true
+		if len(msg) > 5000 {
+			msg = msg[:5000]
+		}
+		c.Violation("crash/"+site+"/via=endpoint", "a panic was recovered while the endpoint served a command", map[string]any{"log": msg, "scenario": h.sc})
+	}
+}
+
+func (h *epHarness) panicked() bool {
+	h.mu.Lock()
+	defer h.mu.Unlock()
+	return len(h.panics) > 0
+}
+
+// ---- SMTP client ----------------------------------------------------------------
+
+type epConn struct {
+	c  net.Conn
+	br *bufio.Reader
+}
+
+func epDial(addr string, local net.IP) (*epConn, error) {
+	d := net.Dialer{Timeout: 20 * time.Second}
+	if local != nil {
+		d.LocalAddr = &net.TCPAddr{IP: local}
+	}
+	c, err := d.Dial("tcp", addr)
+	if err != nil {
+		return nil, err
+	}
+	return &epConn{c: c, br: bufio.NewReader(c)}, nil
+}
+
+// reply reads one (possibly multi-line) reply; code 0 = connection problem.
+func (c *epConn) reply() (int, string) {
+	c.c.SetReadDeadline(time.Now().Add(60 * time.Second))
+	var text []string
+	for {
+		line, err := c.br.ReadString('\n')
+		if err != nil || len(line) < 4 {
+			return 0, strings.Join(text, "|")
+		}
+		text = append(text, strings.TrimRight(line, "\r\n"))
+		if line[3] != '-' {
+			code, _ := strconv.Atoi(line[:3])
+			return code, strings.Join(text, "|")
+		}
+	}
+}
+
+func (c *epConn) cmd(format string, a ...any) (int, string) {
+	c.c.SetWriteDeadline(time.Now().Add(30 * time.Second))
+	if _, err := fmt.Fprintf(c.c, format+"\r\n", a...); err != nil {
+		return 0, err.Error()
+	}
+	return c.reply()
+}
+
+type epStats struct {
+	tx, delivered, highLoad, mailRefused, rcptRefused, dataFailed, rsets, drops, quits, lost atomic.Int64
+}
+
+const msgBody = "From: <a@d.example>\r\nSubject: c11\r\n\r\nbody\r\n"
+
+// runClient plays the transactions of one client; returns false if the
+// connection broke where the plan did not break it.
+func (h *epHarness) runClient(ci int, st *epStats, onReply func(ti int, stage string, code int)) {
+	cl := h.sc.Clients[ci]
+	conn, err := epDial(h.addr, epIP(cl.IP))
+	if err != nil {
+		st.lost.Add(1)
+		return
+	}
+	defer conn.c.Close()
+	if code, _ := conn.reply(); code != 220 {
+		st.lost.Add(1)
+		return
+	}
+	hello := "EHLO"
+	if h.sc.Proto == "lmtp" {
+		hello = "LHLO"
+	}
+	if code, _ := conn.cmd("%s client%d.example", hello, ci); code != 250 {
+		st.lost.Add(1)
+		return
+	}
+	for ti, tx := range cl.Txs {
+		st.tx.Add(1)
+		code, _ := conn.cmd("MAIL FROM:<%s>", epSender(ci, ti, tx))
+		onReply(ti, "mail", code)
+		if code == 0 {
+			st.lost.Add(1)
+			return
+		}
+		if code != 250 {
+			if code == 451 {
+				st.highLoad.Add(1)
+			} else {
+				st.mailRefused.Add(1)
+			}
+			conn.cmd("RSET")
+			continue
+		}
+		if tx.End == "rset-early" {
+			st.rsets.Add(1)
+			if code, _ := conn.cmd("RSET"); code == 0 {
+				st.lost.Add(1)
+				return
+			}
+			continue
+		}
+		code, txt := conn.cmd("RCPT TO:<r@rcpt.example>")
+		onReply(ti, "rcpt", code)
+		if code == 0 {
+			st.lost.Add(1)
+			return
+		}
+		if code != 250 {
+			switch {
+			case code == 451 && strings.Contains(txt, "High load"):
+				st.highLoad.Add(1)
+			case tx.End == "mail-rej":
+				st.mailRefused.Add(1)
+			default:
+				st.rcptRefused.Add(1)
+			}
+			if code, _ := conn.cmd("RSET"); code == 0 {
+				st.lost.Add(1)
+				return
+			}
+			continue
+		}
+		switch tx.End {
+		case "rset":
+			st.rsets.Add(1)
+			if code, _ := conn.cmd("RSET"); code == 0 {
+				st.lost.Add(1)
+				return
+			}
+			continue
+		case "quit":
+			st.quits.Add(1)
+			conn.cmd("QUIT")
+			return
+		case "drop":
+			st.drops.Add(1)
+			return
+		}
+		if code, _ := conn.cmd("DATA"); code != 354 {
+			conn.cmd("RSET")
+			continue
+		}
+		if tx.End == "drop-in-data" {
+			st.drops.Add(1)
+			fmt.Fprintf(conn.c, "From: <a@d.example>\r\nSubject: half")
+			return
+		}
+		code, _ = conn.cmd("%s.", msgBody)
+		onReply(ti, "data", code)
+		switch {
+		case code == 0:
+			st.lost.Add(1)
+			return
+		case code == 250:
+			st.delivered.Add(1)
+		default:
+			st.dataFailed.Add(1)
+		}
+	}
+	conn.cmd("QUIT")
+}
+
+// waitSessionsClosed waits until every server-side session has logged out.
+func (h *epHarness) waitSessionsClosed(d time.Duration) bool {
+	deadline := time.Now().Add(d)
+	for time.Now().Before(deadline) {
+		if h.endp.ConnectionCount() == 0 {
+			return true
+		}
+		time.Sleep(time.Millisecond)
+	}
+	return false
+}
+
+func (h *epHarness) close() {
+	// go-smtp registers the listener inside Serve: make sure Serve has run
+	if c, err := net.DialTimeout("tcp", h.addr, 5*time.Second); err == nil {
+		c.Close()
+	}
+	done := make(chan struct{})
+	go func() { h.endp.Close(); close(done) }()
+	select {
+	case <-done:
+	case <-time.After(20 * time.Second):
+	}
+}
+
+// smtpProbe (inline mode) opens cap = min N over the configured scopes
+// transactions from one address and one sender domain and keeps them open:
+// each must be admitted. With surplus it then checks that one more is refused.
+func (h *epHarness) smtpProbe(c *rep.Case, r *rep.Reporter, surplus bool) {
+	capN := 0
+	binding := ""
+	for _, s := range []string{scAll, scIP, scSrc} {
+		if n := h.sc.Cfg.N(s); n > 0 && (capN == 0 || n < capN) {
+			capN, binding = n, s
+		}
+	}
+	if capN == 0 {
+		return
+	}
+	hello := "EHLO"
+	if h.sc.Proto == "lmtp" {
+		hello = "LHLO"
+	}
+	open := func(k int) (*epConn, int) {
+		conn, err := epDial(h.addr, epIP(0))
+		if err != nil {
+			return nil, 0
+		}
+		if code, _ := conn.reply(); code != 220 {
+			conn.c.Close()
+			return nil, 0
+		}
+		conn.cmd("%s probe.example", hello)
+		code, _ := conn.cmd("MAIL FROM:<probe%d@d0.example>", k)
+		if code == 250 {
+			code, _ = conn.cmd("RCPT TO:<r@rcpt.example>")
+		}
+		return conn, code
+	}
+	var conns []*epConn
+	defer func() {
+		for _, cn := range conns {
+			cn.cmd("RSET")
+			cn.cmd("QUIT")
+			cn.c.Close()
+		}
+	}()
+	for k := 0; k < capN; k++ {
+		conn, code := open(k)
+		if conn == nil {
+			c.Inconclusive("probe connection failed")
+			return
+		}
+		conns = append(conns, conn)
+		if code == 451 {
+			c.Violation("quiescent/fewer-than-limit-grantable/scope="+binding+"/via=endpoint-smtp",
+				fmt.Sprintf("all sessions have ended, yet only %d of %d transactions were admitted (the next one got 451 after the limit time-out)", k, capN),
+				map[string]any{"granted": k, "limit": capN, "scenario": h.sc})
+			return
+		}
+		if code != 250 {
+			c.Inconclusive(fmt.Sprintf("probe transaction got %d", code))
+			return
+		}
+	}
+	r.Count("probe_full_capacity_granted", 1)
+	if surplus {
+		conn, code := open(capN)
+		if conn != nil {
+			conns = append(conns, conn)
+			if code == 250 {
+				c.Violation("quiescent/more-than-limit-grantable/scope="+binding+"/via=endpoint-smtp",
+					fmt.Sprintf("%d transactions are open (limit %d) and one more was admitted", capN, capN),
+					map[string]any{"limit": capN, "scenario": h.sc})
+			} else if code == 451 {
+				r.Count("probe_surplus_refused", 1)
+			}
+		}
+	}
+}
+
+func runEndpointCases(t *testing.T, r *rep.Reporter, env instrEnv) {
+	n := r.N(64, 2000)
+	nTimeout := r.N(8, 96) // the first cases are limit time-out scenarios (5 s each)
+	for i := 0; i < n; i++ {
+		idx := baseEndpoint + i
+		r.Run(idx, fmt.Sprintf("endpoint-%d", i), func(c *rep.Case) {
+			p := prng.New(r.Seed(), uint64(idx), "c11/endpoint")
+			sc := genEndpointScenario(p, i < nTimeout)
+			h, err := newEpHarness(sc)
+			if err != nil {
+				t.Fatalf("case %d: %v", idx, err)
+			}
+			defer h.close()
+			yieldMode{Kind: "count"}.Install(0)
+
+			var st epStats
+			var wg sync.WaitGroup
+			var surplus451, surplusAdmitted atomic.Int64
+			if sc.Timeout {
+				nh := h.holders()
+				// holders first: all of them must get inside Start
+				for ci := 0; ci < nh; ci++ {
+					wg.Add(1)
+					go func(ci int) {
+						defer wg.Done()
+						h.runClient(ci, &st, func(int, string, int) {})
+					}(ci)
+				}
+				deadline := time.Now().Add(30 * time.Second)
+				for int(h.holding.Load()) < nh && time.Now().Before(deadline) && st.highLoad.Load() == 0 && st.lost.Load() == 0 {
+					time.Sleep(time.Millisecond)
+				}
+				if int(h.holding.Load()) < nh {
+					close(h.hold)
+					waitTimeout(&wg, 60*time.Second)
+					h.reportPanics(c)
+					if st.highLoad.Load() > 0 && !h.panicked() {
+						c.Violation("quiescent/fewer-than-limit-grantable/scope="+sc.Scope+"/via=endpoint-smtp",
+							fmt.Sprintf("fresh endpoint: fewer than %d simultaneous transactions were admitted", nh), map[string]any{"scenario": sc})
+					} else if !h.panicked() {
+						c.Inconclusive("holders did not reach the target")
+					}
+					c.Done("", false)
+					return
+				}
+				// surplus clients: each blocks in TakeMsg until the 5 s time-out
+				var swg sync.WaitGroup
+				for ci := nh; ci < len(sc.Clients); ci++ {
+					swg.Add(1)
+					wg.Add(1)
+					go func(ci int) {
+						defer wg.Done()
+						once := sync.Once{}
+						h.runClient(ci, &st, func(ti int, stage string, code int) {
+							// the first reply that can carry the limiter's decision
+							if stage == "mail" && !sc.Defer || stage == "rcpt" && sc.Defer || code != 250 {
+								once.Do(func() {
+									if code == 451 {
+										surplus451.Add(1)
+									} else if code == 250 {
+										surplusAdmitted.Add(1)
+									}
+									swg.Done()
+								})
+							}
+						})
+						once.Do(swg.Done)
+					}(ci)
+				}
+				if !waitTimeout(&swg, 60*time.Second) {
+					c.Inconclusive("surplus clients got no reply within the watchdog")
+				}
+				close(h.hold)
+			} else {
+				for ci := range sc.Clients {
+					wg.Add(1)
+					go func(ci int) {
+						defer wg.Done()
+						h.runClient(ci, &st, func(int, string, int) {})
+					}(ci)
+				}
+			}
+			if !waitTimeout(&wg, 120*time.Second) {
+				c.Inconclusive("clients did not finish within the watchdog")
+				c.Done("", false)
+				return
+			}
+			quiet := h.waitSessionsClosed(60 * time.Second)
+			h.reportPanics(c)
+			h.mon.Report(c, "endpoint", sc)
+			switch {
+			case !quiet:
+				c.Inconclusive("server sessions did not end within the watchdog")
+			case h.panicked():
+			case h.group != nil:
+				var cr crashes
+				pb := &prober{c: c, r: r, g: h.group, cfg: sc.Cfg, layer: "endpoint", wit: sc, cr: &cr}
+				usedDom := epDomain(0)
+				pb.probeAll(epIP(0), usedDom, "")
+				cr.Report(c, "endpoint", sc)
+			default:
+				h.smtpProbe(c, r, i%2 == 0)
+				h.reportPanics(c)
+			}
+
+			r.Count("endpoint_transactions", st.tx.Load())
+			r.Count("endpoint_delivered", st.delivered.Load())
+			r.Count("endpoint_451_high_load", st.highLoad.Load())
+			r.Count("endpoint_mail_rejected", st.mailRefused.Load())
+			r.Count("endpoint_rcpt_rejected", st.rcptRefused.Load())
+			r.Count("endpoint_data_failed", st.dataFailed.Load())
+			r.Count("endpoint_rset", st.rsets.Load())
+			r.Count("endpoint_quit_mid_transaction", st.quits.Load())
+			r.Count("endpoint_dropped_connections", st.drops.Load())
+			r.Count("endpoint_lost_connections", st.lost.Load())
+			r.Count("endpoint_inside_intervals", h.entered.Load())
+			r.Count("endpoint_timeout_surplus_refused", surplus451.Load())
+			r.Count("endpoint_timeout_surplus_admitted", surplusAdmitted.Load())
+			sat, scs := h.mon.Saturated()
+			r.Count("scope_keys_saturated", int64(sat))
+			for s := range scs {
+				r.Distinct("scopes_saturated", s)
+			}
+			ends := map[string]bool{}
+			for _, cl := range sc.Clients {
+				for _, tx := range cl.Txs {
+					ends[tx.End] = true
+					r.Distinct("endpoint_transaction_endings", tx.End)
+				}
+			}
+			if i < 2 || i == nTimeout {
+				r.Sample(map[string]any{"layer": "endpoint", "proto": sc.Proto, "limits": sc.Text, "inline": sc.Inline, "defer": sc.Defer, "timeout_scenario": sc.Timeout, "clients": len(sc.Clients)})
+			}
+			shape := fmt.Sprintf("endpoint %s defer=%v inline=%v timeout=%v/%s cfg=%s clients=%d ends=%d sat=%v hl=%v", sc.Proto, sc.Defer, sc.Inline, sc.Timeout, sc.Scope, sc.Cfg.Shape(), len(sc.Clients), len(ends), sat > 0, st.highLoad.Load() > 0)
+			c.Done(shape, sat > 0 || st.highLoad.Load() > 0)
+		})
+	}
+}
+
+var _ = context.Background
